@@ -163,6 +163,45 @@ def unencode(ctx, facts, cfg):
         else:
             ctx.ok(R, '%s@%s' % (core.short(p), cfg), {'repack_at': [t['line'] for b, t in U], 'transforms_before': len(T)})
     ctx.floor(R, 4, n, 'codec functions', cfg=cfg)
+    # the work object's re-packing method itself: the store's un-encode runs on every path through it, or is skipped on the
+    # configuration only (shard_bytes a multiple of 64 ...).  A skip decided by state the object keeps between calls (an
+    # "already undone" flag armed in reset only) leaves the second round on the same object in the working layout.
+    RL = roles_mod.roles(facts)
+    su = RL.fn.get('store.undo')
+    SELF = ('deref', ('param', 'self'))
+    CONFIG = {'shard_bytes', 'original_count', 'recovery_count'}
+    for role in ('enc.undo', 'dec.undo'):
+        w = facts.fns.get(RL.fn.get(role) or '')
+        if w is None or not su:
+            continue
+        wb = w.body
+        ublocks = {b for b, t in wb.calls() if (t['callee'].get('path') or '') == su}
+        if not ublocks:
+            continue
+        skipped = any(count_on_paths(wb, e, ublocks)[0] == 0 for e in wb.exits())
+        if not skipped:
+            ctx.ok(R, 'wrapper:%s@%s' % (role, cfg), {'store_undo_on_every_path': True})
+            continue
+        state = set()
+
+        def scan(c):
+            if isinstance(c, tuple):
+                if c and c[0] == 'field' and c[1] == SELF and isinstance(c[2], str) and c[2] not in CONFIG:
+                    state.add(c[2])
+                if c and c[0] == 'call':
+                    state.add('call:' + core.short(str(c[1])))
+                for x in c:
+                    scan(x)
+        for b in range(wb.n):
+            t = wb.term(b)
+            if t['k'] == 'switch' and not wb.blocks[b]['cleanup']:
+                scan(core.strip_var_ids(wb.canon_op(t['discr'])))
+        if state:
+            ctx.violation(R, 'repack-skipped-on-state:%s' % ','.join(sorted(state))[:80],
+                          '%s: the un-encode of the store is skipped on a condition over %s, which is not the configuration: a later round on the same object can expose shards in the working layout'
+                          % (core.short(w.path), ', '.join(sorted(state))), site=w.span, fn=w.path, cfg=cfg)
+        else:
+            ctx.ok(R, 'wrapper:%s@%s' % (role, cfg), {'store_undo_skipped_on_configuration_only': True})
 
 
 def is_transform(facts, body, t):
